@@ -167,3 +167,12 @@ package req
 //@
 //@ func (*socket).RemovePipe
 //@   loop 2 ensures c.failNoPeers && len(s.pipes) == 0 ==> !c.queued && c.reqMsg == nil && c.reqID == 0
+// ---- generated AddPipe contracts (tools/gen_addpipe_contracts.py) ----
+//@ func (*socket).AddPipe
+//@   ghost wasClosed = s.closed at call:Lock#1
+//@   ensures wasClosed ==> result == protocol.ErrClosed && !spawned("receiver") && !spawned("sender")
+//@   ensures !wasClosed && isnil(result) ==> spawned("receiver") && has(s.pipes, pp.ID())
+//@   ensures !wasClosed ==> isnil(result)
+//@   before call:SetPrivate#1 assert p.p == pp && p.s == s
+//@
+// ---- end generated AddPipe contracts ----
